@@ -37,11 +37,33 @@ def m_sink_send(ex, st, callee, args, dty, site):
     return r
 
 
+def m_try_send(ex, st, callee, args, dty, site):
+    """tokio mpsc::Sender::try_send(&tx, v) -> Ok(()) | Err(Full(v)) | Err(Closed(v)) : outcome chosen by the solver; recorded"""
+    o = z3.BitVec(ex.ctx.fresh_name("try_send_outcome"), 2)
+    st["pc"].append(z3.ULE(o, 2))
+    r = Node(ex.ctx.fresh_name("try_send_result"), "Result<(), TrySendError>")
+    d = Node(r.name + ".discr", "isize")
+    d.val = z3.If(o == 0, z3.BitVecVal(0, 64), z3.BitVecVal(1, 64))
+    r.kids["discr"] = d
+    e = Node(r.name + ".Err:0", "TrySendError")
+    ed = Node(e.name + ".discr", "isize")
+    ed.val = z3.If(o == 1, z3.BitVecVal(0, 64), z3.BitVecVal(1, 64))      # Full = 0, Closed = 1
+    e.kids["discr"] = ed
+    for vn in ("Full", "Closed"):
+        k = Node(f"{e.name}.{vn}:0", None)
+        ex.write(k, args[1])
+        e.kids[(vn, 0)] = k
+    r.kids[("Err", 0)] = e
+    return r
+
+
 def m_subscription_channel(ex, st, callee, args, dty, site):
     k = ex.ctx.fresh_name("chan")
     t = Node(k, "(SubscriptionSender, SubscriptionReceiver)")
-    a = Node(k + ".0", None)
-    a.val = Opaque(z3.Const("tx:" + k, OBJ))
+    a = Node(k + ".0", "SubscriptionSender")
+    inner = Node(k + ".0.0", None)
+    inner.val = Opaque(z3.Const("tx:" + k, OBJ))
+    a.kids[0] = inner
     b = Node(k + ".1", None)
     b.val = Opaque(z3.Const("rx:" + k, OBJ))
     t.kids[0], t.kids[1] = a, b
@@ -106,14 +128,25 @@ def m_try_parse_number(ex, st, callee, args, dty, site):
     return NotImplemented
 
 
+def m_str_identity(ex, st, callee, args, dty, site):
+    """conversions between str / String / Cow<str> keep the abstract text"""
+    return MM.value_of(ex, args[0])
+
+
+STR_RX = (r"^(<Cow<'_, str> as ToString>::to_string|<str as ToOwned>::to_owned|<Cow<'_, str> as Deref>::deref|<std::string::String as Deref>::deref|"
+          r"<std::string::String as Borrow<str>>::borrow|<std::string::String as Into<Cow<'_, str>>>::into|<&str as Into<Cow<'_, str>>>::into|"
+          r"<std::string::String as Clone>::clone|std::string::String::as_str|<str as ToString>::to_string|<std::string::String as From<&str>>::from)$")
+
 CLIENT_MODELS = [
+    (STR_RX, m_str_identity),
     (r"^jsonrpsee_types::Response::<.*>::new$", m_response_new),
     (r"^<jsonrpsee_types::Response<.*> as Into<RawResponse<'_>>>::into$", m_into_rawresponse),
     (r"^jsonrpsee_types::Id::<'_>::try_parse_inner_as_number$", m_try_parse_number),
     (r"^to_writer::<&mut Vec<u8>, .*>$", m_to_writer_infallible),
     (r"^serde_json::to_string::<jsonrpsee_types::Request<'_>>$", m_to_string_ok),
     (r"^tokio::sync::oneshot::Sender::<.*>::send$", m_oneshot_send),
-    (r"^SubscriptionSender::send$", m_sink_send),
+    (r"^tokio::sync::mpsc::Sender::<.*>::try_send$", m_try_send),
+    (r"^SubscriptionLagged::set_lagged$", lambda ex, st, c, a, d, s: Opaque(z3.Const("unit", OBJ))),
     (r"^subscription_channel$", m_subscription_channel),
     (r"::into_owned$", M.m_identity),
     (r"^<jsonrpsee_types::Id<'_> as PartialEq>::(eq|ne)$", m_struct_eq),
@@ -121,9 +154,10 @@ CLIENT_MODELS = [
 ]
 CLIENT_DOC = [
     "tokio oneshot::Sender::send: recorded as an event; Ok(()) iff a fresh Boolean 'receiver alive', else Err(value)",
-    "SubscriptionSender::send: outcome (delivered | Closed | TooSlow) chosen by the solver; recorded",
+    "tokio mpsc::Sender::try_send: outcome (delivered | Full | Closed) chosen by the solver; recorded (SubscriptionSender::send itself is executed)",
     "subscription_channel(cap): a fresh (sender, receiver) pair",
     "Id/SubscriptionId/Cow::into_owned are identities; Id == Id is structural equality",
+    "str / String / Cow<str> conversions (to_string, to_owned, deref, borrow, into, clone) keep the abstract text",
     "Response::new(payload, id) builds the response with that id; Response -> RawResponse wraps it; Id::try_parse_inner_as_number: Number(n) -> Ok(n), Null -> Err",
     "serialising a SubscriptionId (ArrayParams::insert) or a jsonrpsee Request (serde_json::to_string) cannot fail",
 ]
